@@ -1456,6 +1456,10 @@ def listcomps_to_loops(trees, inv):
             done = []
             # a function that already used a comprehension of that kind keeps its comprehensions (the rules know them in that form)
             inv_kinds = {k for k in ("ListComp", "DictComp") if k in inv.get("functions", {}).get(mod, {}).get(q, [])}
+            # ... and a comprehension is only read as a loop where a loop went away (the inventory's version has more `for` statements):
+            # a comprehension that was added next to the existing loops (a table of masks, an inverse map) is no abbreviation of one
+            if sum(1 for x in ast.walk(fn) if isinstance(x, ast.For)) >= inv.get("functions", {}).get(mod, {}).get(q, []).count("For"):
+                continue
             for blk_owner in list(ast.walk(fn)):
                 for fld in ("body", "orelse", "finalbody"):
                     blk = getattr(blk_owner, fld, None)
